@@ -126,7 +126,8 @@ pub fn ttl(rng: &mut Rng, p: &Profile) -> u32 {
     if !rng.chance(p.ttl_pct, 100) {
         return 0;
     }
-    *rng.pick(&[1u32, 1, 2, 2, 3, 5, 5, 10, 60, 2592000])
+    // relative seconds whatever the size: also above memcached's 30-day "absolute time" threshold, up to the u32 maximum
+    *rng.pick(&[1u32, 1, 2, 2, 3, 5, 5, 10, 60, 2592000, 2592001, 3000000, 0x7fff_ffff, 0xffff_fffe])
 }
 
 pub fn flags(rng: &mut Rng) -> u32 {
@@ -198,9 +199,11 @@ impl GenState {
                 let exp = match rng.below(6) {
                     0 | 1 => 0xffff_ffff,
                     2 => ttl(rng, p),
+                    3 if p.name == "C05" => ttl(rng, p),
                     _ => 0,
                 };
-                wire::delta(opc, &key, u64_extreme(rng), u64_extreme(rng), exp, self.cas(rng, p, &key), opaque)
+                let d = if rng.chance(1, 8) { 0 } else { u64_extreme(rng) };
+                wire::delta(opc, &key, d, u64_extreme(rng), exp, self.cas(rng, p, &key), opaque)
             }
             7 => {
                 let opc = *rng.pick(&[op::GET, op::GET, op::GETK, op::GETQ, op::GETKQ]);
@@ -228,7 +231,7 @@ impl GenState {
                         _ => d + 1,
                     }
                 } else {
-                    self.now + *rng.pick(&[0u64, 1, 1, 2, 3, 7, 100, 3000000])
+                    self.now + *rng.pick(&[0u64, 1, 1, 2, 3, 7, 100, 2592001, 3000000, 3000000, 5_000_000_000])
                 };
                 self.now = self.now.max(t);
                 return GenOp::Now(self.now);
@@ -264,7 +267,18 @@ impl GenState {
 
 /// frames that are complete and length-consistent but not what the protocol document prescribes
 pub fn nonstandard(rng: &mut Rng, key: &[u8], opaque: u32) -> Frame {
-    let mut f = match rng.below(9) {
+    let mut f = match rng.below(11) {
+        9 => {
+            // a key-less, extras-less command whose body is itself a complete request: must not be executed
+            let mut f = wire::bare(*rng.pick(&[op::NOOP, op::VERSION, op::STAT, op::FLUSH]), opaque);
+            f.value = wire::set_like(op::SET, key, b"smuggled", 7, 0, 0, opaque ^ 0x5555).bytes();
+            f
+        }
+        10 => {
+            let mut f = wire::bare(*rng.pick(&[op::NOOP, op::VERSION, 0x1c, 0x20]), opaque);
+            f.value = wire::key_only(op::GET, key, 0, opaque ^ 0x3333).bytes();
+            f
+        }
         0 => {
             let mut f = wire::key_only(op::GET, key, 0, opaque);
             f.extras = vec![1, 2, 3, 4];
